@@ -206,6 +206,13 @@ def r_tab_1904(ctx, rep):
                         rep.holds("R-TAB-1904", key, loc(arm), "date1904 is true for both xsd:boolean spellings \"1\" and \"true\"")
                     else:
                         rep.violation("R-TAB-1904", key, loc(arm), "the workbookPr arm does not accept both xsd:boolean spellings of date1904 (\"1\" and \"true\"; found literals %s): Excel writes date1904=\"1\", so the 1904 date system would be lost" % sorted(lits))
+                    # the arm is selected by local name, so extension elements (x15:workbookPr in extLst) reach it
+                    # too: an element without the attribute must leave the flag alone
+                    resets = [n for a in assigns for n in walk(a["r"]) if n.get("k") == "Lit" and lit_value(n) is False]
+                    if resets:
+                        rep.violation("R-TAB-1904", key + "|absent-resets", loc(resets[0]), "the workbookPr arm assigns a constant false to is_1904 (the attribute-absent case): `<x15:workbookPr/>` inside extLst, which Excel writes after the real workbookPr, would reset the 1904 date system")
+                    elif assigns:
+                        rep.holds("R-TAB-1904", key + "|absent-resets", loc(arm), "is_1904 is only assigned from a present date1904 attribute")
         if not hit:
             rep.anchor_missing("R-TAB-1904", "the workbookPr arm of xlsx read_workbook")
     # xlsb: BrtWbProp bit 0 ; xls: Date1904 record == 1
